@@ -132,7 +132,7 @@ void group_action(vf::Ctx& c, size_t it) {
     long double pscale = 1 + wp.norm() + poss[ip].norm();
     if ((r.position.cast<long double>() - wp).norm() > 1e-12L * pscale) c.violation("Pose3D.transform.position", params, vf::JO().num("err", (r.position.cast<long double>() - wp).norm()).done());
     long double aerr = (refR(r.orientation) - want).norm();
-    long double atol = std::min<long double>(1e-9L, 1e-13L + 1e-14L / cp);
+    long double atol = std::min<long double>(1e-9L, 2e-14L + 2e-15L / cp);
     c.note_max("attitude_err_over_tol", (double)(aerr / atol));
     if (!(aerr <= atol)) c.violation("Pose3D.transform.attitude", params, vf::JO().num("err", aerr).num("tol", atol).num("distance_to_gimbal_lock", acosl(fabsl(want(2, 0))) ).done());
     // identity neutral (exact up to rounding of the angle extraction)
@@ -147,7 +147,7 @@ void group_action(vf::Ctx& c, size_t it) {
       c.eval(); c.nontrivial();
       Pose3D a = (T2 * T1) * p, b = T2 * r;
       long double cp2 = sqrtl(1 - w2(2, 0) * w2(2, 0));
-      long double tol2 = std::min<long double>(1e-9L, 1e-13L + 2e-14L / cp2 + 2e-14L / cp);
+      long double tol2 = std::min<long double>(1e-9L, 4e-14L + 4e-15L / cp2 + 4e-15L / cp);
       long double ps = 1 + a.position.norm() + T1.translation().norm() + T2.translation().norm() + poss[ip].norm();
       if ((a.position - b.position).norm() > 1e-12 * ps || (refR(a.orientation) - refR(b.orientation)).norm() > tol2 || (refR(a.orientation) - w2).norm() > tol2)
         c.violation("Pose3D.transform.composition", vf::JO().u("T1", it).u("T2", j).vec("pose_rpy", std::vector<double>{atts[ia][0], atts[ia][1], atts[ia][2]}).done(),
@@ -179,7 +179,7 @@ void ellipses(vf::Ctx& c, bool th) {
         Eigen::Matrix2d back = R * Eigen::Vector2d(a * a, b * b).asDiagonal() * R.transpose() / (sigma * sigma);
         double err = (back - C).norm() / scale;
         c.note_max("ellipse_reconstruction_rel_err", err);
-        if (!(err <= 1e-9)) ok = false;
+        if (!(err <= 1e-12)) ok = false;
       }
       if (!ok) c.violation("uncertaintyEllipse", params, vf::JO().num("major", a).num("minor", b).num("orientation", o).done());
       if (c.want_sample()) c.sample(params);
@@ -205,7 +205,7 @@ std::string vf_describe(const std::string& tier) {
   o.str("attitudes", "roll {0,0.7,-2.5,3} x pitch {0,0.3,-1.2,pi/2-1.5e-3,pi/2-2e-3,-(pi/2-4e-3),pi/2-0.01} x yaw {0,0.4,-3,5.5}; cases within 1e-3 rad of gimbal lock before or after the transform are skipped (trivial)");
   o.str("transforms", "rotations: identity, yaw 0.4/-2/pi, roll 0.5, pitch pi/2-0.3-3e-3, three general axes x translations {0,(0.3,-1.2,2),(1e3,-1e3,10)}; compositions with every 4th transform");
   o.str("ellipses", tier == "thorough" ? "9 eigenvalue pairs (rank-1, rank-0, kappa up to 1e8) x axis 0..179 deg step 1 x sigma {0.1,1,3,10} x {Position2D,Pose2D}" : "9 eigenvalue pairs (rank-1, rank-0, kappa up to 1e8) x axis 0..175 deg step 5 x sigma {0.1,1,3,10} x {Position2D,Pose2D}");
-  o.str("tolerances", "attitude as rotation: min(1e-9, 1e-13+1e-14/cos(pitch)); ellipse reconstruction 1e-9 relative to the major eigenvalue; reductions exact");
+  o.str("tolerances", "attitude as rotation: min(1e-9, 2e-14+2e-15/cos(pitch)); ellipse reconstruction 1e-12 relative to the major eigenvalue; reductions exact");
   return o.done();
 }
 
